@@ -169,6 +169,23 @@ def c15_3(c: Ctx) -> None:
             c.fail(u, 'idle-flag wait reachable without awaiting event_queue.join()', 'wait_until_idle does not wait for events that are still queued', node=fw.ast, witness=c.path(g.entry, p))
 
 
+def check_runloop_only_awaits_step(c: Ctx) -> None:
+    """Inside its processing loop the run loop awaits nothing but step() (whose only wait is the bounded poll): a running bus never stops consuming its queue."""
+    rl = c.unit(SVC, 'EventBus._run_loop')
+    loops = [n for n in own_nodes(rl.node) if isinstance(n, ast.While) and any(isinstance(x, ast.Call) and call_name(x) == 'step' for b in n.body for x in ast.walk(b))]
+    loops = [n for n in loops if not any(m is not n and q.lexically_in(n, m, 'body') for m in loops)]
+    if len(loops) != 1:
+        raise AnalysisError(f'{rl}: expected one processing loop around step(), found {len(loops)}')
+    others = [a for b in loops[0].body for a in ast.walk(b) if isinstance(a, ast.Await) and not (isinstance(a.value, ast.Call) and call_name(a.value) == 'step')]
+    # a bounded sleep (constant delay) is a pause of known length, not a stop
+    others = [a for a in others if not (isinstance(a.value, ast.Call) and U(a.value.func) in ('asyncio.sleep', 'sleep') and a.value.args and isinstance(a.value.args[0], ast.Constant))]
+    if not others:
+        c.ok(where(rl, loops[0]), 'the processing loop awaits only step(): a running bus keeps taking events from its queue')
+    for a in others:
+        c.fail(rl, f'the processing loop also awaits `{U(a.value)[:60]}`', 'a running bus can stop consuming its queue for an unbounded time: wait_until_idle() / queue.join() hang on its backlog, and the backlog sits in the '
+               'queue where another bus\'s in-handler await picks it up and runs it inside an unrelated handler', node=a)
+
+
 @ob('C15.6', 'EFFECT', 'the run loop re-evaluates idleness within bounded time: every wait of the idle poll (_get_next_event) is bounded by the finite poll timeout, and the '
     'only unbounded await there is on the get-task the bounded wait has just reported done (a waiter that cleared the flag is woken again)')
 def c15_6(c: Ctx) -> None:
@@ -210,6 +227,7 @@ def c15_6(c: Ctx) -> None:
                 c.fail(u, f'await {v.id} reachable without the wait having reported it done', 'the run loop can block without bound on an empty queue: idleness is never re-evaluated', node=a, witness=c.path(g.entry, bad[0]))
         else:
             c.fail(u, f'unbounded await in the idle poll: {U(v)[:70]}', 'the run loop can block without bound: idleness is never re-evaluated and wait_until_idle() can hang although the bus is idle', node=a)
+    check_runloop_only_awaits_step(c)
     # the caller must pass a finite poll timeout too
     st = c.unit(SVC, 'EventBus.step')
     for cu, call in c.cg.callers(u):
